@@ -13,7 +13,7 @@ from .interp import (Ctx, Frame, PyRaise, _Return, _Break, _Continue, PathEnd, I
 from .values import (S, VOpt, VQty, VTime, VDelta, VEnum, SEnum, VRec, VRef, HObj, HList, HDict,
                      HSet, SymSeq, SymSet, SymMap, FuncRef, ClassRef, ModRef, ExtRef,
                      BoundBuiltin, Opaque, Unsupported, fresh_name, zreal, float_literal, GhostSeq,
-                     KeySetVal, HKeySet, HOptDict, HSymList)
+                     KeySetVal, HKeySet, HOptDict, HSymList, HSymSet)
 
 
 class SpecFn:
@@ -139,6 +139,9 @@ class Interp:
                 return optdict.truth(self, h)
             if isinstance(h, HSymList):
                 return h.seq.length > 0
+            if isinstance(h, HSymSet):
+                from . import symset
+                return symset.length(self, h.val).z > 0
             ci = self.engine.class_info(h.cls)
             if ci and ("__bool__" in ci.methods or "__len__" in ci.methods):
                 m = "__bool__" if "__bool__" in ci.methods else "__len__"
@@ -768,6 +771,8 @@ class Interp:
                 return keysets.contains(self.engine, self, h.val, item)
             if isinstance(h, HOptDict):
                 return optdict.contains(self, h, item)
+            if isinstance(h, HSymSet):
+                return mk(z3.Select(h.val.member, self.key_z(self.unwrap(item))), "bool")
             if isinstance(h, HList):
                 return self.contains(tuple(h.items), item)
             if isinstance(h, (HSet, HDict)):
@@ -809,6 +814,9 @@ class Interp:
         if isinstance(base, ModRef):
             return self.module_attr(base.module, attr)
         if isinstance(base, ExtRef):
+            from .spec import EXT_ENUMS
+            if "ext:" + base.name in EXT_ENUMS and attr in EXT_ENUMS["ext:" + base.name]:
+                return VEnum("ext:" + base.name, attr)
             if base.name == "math" and attr in ("nan", "inf", "pi", "e"):
                 import math as _m
                 if self.ctx.mode == "ieee":
